@@ -57,7 +57,12 @@ pub fn unids(s: &str) -> Option<Vec<u32>> {
     s.split(',').map(|t| t.parse::<u32>().ok()).collect()
 }
 
+/// bit pattern; every NaN (whatever its sign / payload) is the one token `f32:nan`, the token the
+/// model prints for a NaN value and for a division by a zero denominator
 pub fn f32bits(x: f32) -> String {
+    if x.is_nan() {
+        return "f32:nan".to_string();
+    }
     format!("f32:{:08x}", x.to_bits())
 }
 
